@@ -1,7 +1,18 @@
 #!/bin/bash
-# Builds the harness once so that later ./check calls hit a warm build cache. Nothing it produces is
-# needed for correctness; every ./check rebuilds from /repo's working tree.
+# Warms the Go build cache so that later ./check calls are fast. Nothing it produces is needed for correctness;
+# every ./check rebuilds what it uses from /repo's working tree.
 ROOT=$(cd "$(dirname "$0")" && pwd)
 export GOFLAGS=-mod=mod GOPROXY=off GOSUMDB=off GOTOOLCHAIN=local CGO_ENABLED=0
 mkdir -p "$ROOT/.build" "$ROOT/evidence"
-cd "$ROOT/harness" && go build -tags verif -o "$ROOT/.build/vcheck.setup" ./cmd/vcheck && rm -f "$ROOT/.build/vcheck.setup"
+cd "$ROOT/harness" || exit 1
+go build -tags verif -o "$ROOT/.build/vcheck.setup" ./cmd/vcheck || exit 1
+rm -f "$ROOT/.build/vcheck.setup"
+# commands and helper programs
+go build -o /dev/null github.com/elastic/go-seccomp-bpf/cmd/sandbox github.com/elastic/go-seccomp-bpf/cmd/seccomp-profiler 2>/dev/null
+go build -o /dev/null ./cmd/hello ./cmd/archprobe 2>/dev/null
+GOARCH=386 go build -o /dev/null ./cmd/hello 2>/dev/null
+# race-enabled build (C13's free-running pass)
+CGO_ENABLED=1 go build -race -tags verif -o /dev/null ./cmd/vcheck 2>/dev/null
+# standard library for every target of the distribution list (C19)
+cd /repo && go tool dist list | xargs -P 16 -I{} sh -c 'GOOS=$(echo {} | cut -d/ -f1) GOARCH=$(echo {} | cut -d/ -f2) go build ./ ./arch ./internal/unix >/dev/null 2>&1'
+exit 0
